@@ -42,6 +42,7 @@ Line protocol of the C17 model (R = Rat).
   hist  <lik,data,model,prior> <ops>  -> `lik=<id> data=<id> model=<id> prior=<id> refused=<n>` after the history; ops `;`-separated: `P<id>` (tp.prior = …), `L<lik>,<data>,<model>` (tp.likelihood = …), `D` (set_data)
   d1opts <dim> <legacy 0|1> <BC> <PSF_size|none> <PSF> <PSF_param==0 0|1> <phantom> <phantom refused 0|1> <noise_type> -> `ok` | `raises:<cls>`
                                    PSF / phantom: `A<ndim>,<len>` (ndarray) | `S<string>` | `O` (anything else)
+  d2opts <BC> <PSF: Q|N|S<name>|O> <PSF_param==0 0|1> <phantom: I<ndim>|V<len>|S<0|1><name>|O> <noise_type> -> `ok` | `raises:<cls>`  (Deconvolution2D)
   phantom <name> <dim> <param|none> -> `x=<vec>` | `nan` | `raises:<cls>` | `leaf` (not an exactly computable phantom)
 -/
 
@@ -317,6 +318,23 @@ def step : List String → String
       | none => "ok"
       | some cls => s!"raises:{cls}"
     | _, _, _, _, _, _, _ => "bad-op"
+  | ["d2opts", bc, psf, pz, ph, noise] =>
+    let psfA : Option Psf2Arg :=
+      if psf = "Q" then some .square else if psf = "N" then some .nonsquare else if psf = "O" then some .other
+      else if psf.startsWith "S" then some (.str (psf.drop 1).toString) else none
+    let phA : Option Phantom2Arg :=
+      if ph = "O" then some .other
+      else if ph.startsWith "I" then (ph.drop 1).toString.toNat?.map .image
+      else if ph.startsWith "V" then (ph.drop 1).toString.toNat?.map .vector
+      else if ph.startsWith "S1" then some (.str (ph.drop 2).toString true)
+      else if ph.startsWith "S0" then some (.str (ph.drop 2).toString false)
+      else none
+    match psfA, parseBit pz, phA with
+    | some psfA, some pz, some phA =>
+      match deconv2dRefusal { bc := bc, psf := psfA, psfParamZero := pz, phantom := phA, noise := noise } with
+      | none => "ok"
+      | some cls => s!"raises:{cls}"
+    | _, _, _ => "bad-op"
   | ["phantom", name, dim, par] =>
     match dim.toNat?, parseOptRat par with
     | some dim, some par =>
